@@ -54,7 +54,7 @@ Fixpoint zall (f : Z -> bool) (n : nat) (s : Z) : bool :=
 Definition all_safe_primes_agree : bool := zall qr_chk qr_n 0.
 
 (* ---------- DecomposePQ ---------- *)
-Inductive pqerr := ERand | EFuel.
+Inductive pqerr := ERand | EFuel | EReject.
 
 (* c := c + a*b (mod what) by double-and-add over the bits of b (LSB first):
    for b > 0 { if b&1 == 1 { c += a; if c >= what { c -= what } }; a += a; if a >= what { a -= what }; b >>= 1 } *)
@@ -107,7 +107,11 @@ Fixpoint pq_outer (rounds fuel : nat) (what i g : Z) (rnd : list Z) : res pqerr 
       end
   end.
 
-Definition decompose_pq (rounds fuel : nat) (pq : Z) (rnd : list Z) : res pqerr (Z * Z) :=
+(* [pq_is_prime] = pq.ProbablyPrime(0) (exact below 2^64): values without a non-trivial
+   factorisation are rejected before the search (which would divide by zero for pq < 2 and never
+   terminate for a prime) *)
+Definition decompose_pq (pq_is_prime : bool) (rounds fuel : nat) (pq : Z) (rnd : list Z) : res pqerr (Z * Z) :=
+  if (pq <? 4) || pq_is_prime then Err EReject else
   match pq_outer rounds fuel pq 0 0 rnd with
   | Ok g => let p := g in let q := pq / g in if p >? q then Ok (q, p) else Ok (p, q)
   | Err e => Err e
